@@ -233,6 +233,68 @@ Section E2E.
     - now apply IH.
   Qed.
 
+
+  (* ================================================================ the writer *)
+  Section Writer.
+    Variable ROWS : list row.
+
+    Definition Ginv (gs : list (list value * list row)) : Prop :=
+      forall k rs, In (k, rs) gs ->
+        (exists r0, In r0 rs /\ k = key_of r0) /\
+        forall r, In r rs -> In r ROWS /\ nonnull r = true /\ keys_eqb (key_of r) k = true.
+
+    Lemma insert_group_G r gs : In r ROWS -> nonnull r = true -> Ginv gs -> Ginv (insert_group (key_of r) r gs).
+    Proof.
+      intros Hr Hn. induction gs as [|[k' rs] t IH]; intros Hg k rs0 Hin.
+      - cbn in Hin. destruct Hin as [E|[]]. injection E as <- <-. split.
+        + exists r. split; [now left|reflexivity].
+        + intros r' [<-|[]]. repeat split; [exact Hr|exact Hn|apply keys_eqb_refl].
+      - cbn in Hin. destruct (keys_eqb (key_of r) k') eqn:E.
+        + destruct Hin as [E'|Hin].
+          * injection E' as <- <-. destruct (Hg k' rs (or_introl eq_refl)) as [[r0 [H0 H0']] H1]. split.
+            -- exists r0. split; [apply in_or_app; now left|exact H0'].
+            -- intros r' Hr'. apply in_app_or in Hr'. destruct Hr' as [Hr'|[<-|[]]]; [now apply H1|].
+               repeat split; assumption.
+          * apply (Hg k rs0). now right.
+        + destruct Hin as [E'|Hin].
+          * injection E' as <- <-. apply (Hg k' rs). now left.
+          * apply (IH (fun k rs H => Hg k rs (or_intror H)) k rs0 Hin).
+    Qed.
+
+    Lemma group_by_G rows : incl rows ROWS -> Ginv (group_by rows).
+    Proof.
+      unfold Partition.group_by.
+      assert (H : forall gs, Ginv gs -> incl rows ROWS ->
+        Ginv (fold_left (fun gs r => if nonnull r then insert_group (key_of r) r gs else gs) rows gs)).
+      { induction rows as [|r rows IH]; intros gs Hg Hi; cbn; [exact Hg|].
+        apply IH; [|intros x Hx; apply Hi; now right].
+        destruct (nonnull r) eqn:E; [|exact Hg]. apply insert_group_G; [apply Hi; now left|exact E|exact Hg]. }
+      intros Hi. apply H; [|exact Hi]. intros k rs [].
+    Qed.
+  End Writer.
+
+  Lemma write_model_files hive names chunks : forall i0 f,
+    In f (concat (mapi_from (write_chunk hive names) i0 chunks)) ->
+    exists i chunk k, In chunk chunks /\ In (k, snd f) (group_by chunk) /\
+                      fst f = rel_path hive names k (part_name i).
+  Proof.
+    induction chunks as [|c r IH]; intros i0 f Hin; cbn in Hin; [destruct Hin|].
+    apply in_app_or in Hin. destruct Hin as [Hin|Hin].
+    - unfold Partition.write_chunk in Hin. apply in_map_iff in Hin. destruct Hin as [[k rs] [<- Hg]].
+      exists i0, c, k. cbn [fst snd]. repeat split; [now left|exact Hg].
+    - destruct (IH _ _ Hin) as [i [chunk [k [H1 [H2 H3]]]]]. exists i, chunk, k. repeat split; [now right|exact H2|exact H3].
+  Qed.
+
+  Lemma write_model_perm hive names chunks : forall i0,
+    Permutation (concat (map snd (concat (mapi_from (write_chunk hive names) i0 chunks))))
+                (filter nonnull (concat chunks)).
+  Proof.
+    induction chunks as [|c r IH]; intros i0; cbn; [constructor|].
+    rewrite map_app, concat_app, filter_app. apply Permutation_app; [|apply IH].
+    unfold Partition.write_chunk. rewrite map_map. cbn [snd].
+    apply (group_by_perm F T D feqb teqb deqb f_eq_Z P).
+  Qed.
+
   (* ================================================================ the reader, generically *)
   Section Reader.
     Variable hive : bool.
@@ -591,5 +653,234 @@ Section E2E.
       - rewrite Eh in Hrf |- *. rewrite Hrf. reflexivity.
       - apply not_true_is_false in Eh. rewrite Eh in Hrf |- *. rewrite Hrf. reflexivity.
     Qed.
+
+    (* ------------------------------------------------------------ writer and reader together *)
+    Hypothesis He : forall n a b, Pv n a -> Pv n b -> veqb a b = true -> a = b.
+
+    Lemma keys_eqb_eq a b : key_ok a -> key_ok b -> keys_eqb a b = true -> a = b.
+    Proof.
+      unfold key_ok. generalize rnames as ns. intros ns Ha'. revert b.
+      induction Ha' as [|n v ns a Hnv Hr IH]; intros b Hb; inversion Hb as [|? v' ? b' Hnv' Hr']; subst; [reflexivity|].
+      cbn. intros H. apply andb_true_iff in H. destruct H as [H1 H2].
+      rewrite (He n v v' Hnv Hnv' H1). f_equal. now apply IH.
+    Qed.
+
+    Definition frame_ok (rows : list row) : Prop :=
+      forall r, In r rows -> nonnull r = true -> key_ok (key_of r).
+
+    Definition expect (r : row) : list (str * value) * P := (combine rnames (map rv (key_of r)), snd r).
+
+    Lemma written_files_ok chunks : frame_ok (concat chunks) ->
+      forall f, In f (write_model hive names chunks) ->
+        exists key i, key_ok key /\ fst f = rel_path hive names key (part_name i) /\
+                      forall r, In r (snd f) -> In r (concat chunks) /\ nonnull r = true /\ key_of r = key.
+    Proof.
+      intros Hfr f Hin. unfold Partition.write_model in Hin.
+      destruct (write_model_files hive names chunks O f Hin) as [i [chunk [k [Hc1 [Hg Hp]]]]].
+      assert (Hi : incl chunk (concat chunks)).
+      { intros x Hx. apply in_concat. exists chunk. split; assumption. }
+      destruct (group_by_G (concat chunks) chunk Hi k (snd f) Hg) as [[r0 [Hr0 Ek]] Hall].
+      destruct (Hall r0 Hr0) as [Hr0in [Hr0n _]].
+      assert (Hk : key_ok k) by (rewrite Ek; now apply Hfr).
+      exists k, i. split; [exact Hk|]. split; [exact Hp|].
+      intros r Hr. destruct (Hall r Hr) as [H1 [H2 H3]]. repeat split; [exact H1|exact H2|].
+      apply keys_eqb_eq; [now apply Hfr|exact Hk|exact H3].
+    Qed.
+
+    (* each row with non-null keys is stored in the directory named by its key and nowhere else *)
+    Theorem placement chunks : frame_ok (concat chunks) ->
+      Permutation (concat (map snd (write_model hive names chunks))) (filter nonnull (concat chunks)) /\
+      forall f r, In f (write_model hive names chunks) -> In r (snd f) ->
+        nonnull r = true /\ exists i, fst f = rel_path hive names (key_of r) (part_name i).
+    Proof.
+      intros Hfr. split; [apply write_model_perm|].
+      intros f r Hf Hr. destruct (written_files_ok chunks Hfr f Hf) as [key [i [_ [Hp Hall]]]].
+      destruct (Hall r Hr) as [_ [H2 H3]]. split; [exact H2|]. exists i. now rewrite H3.
+    Qed.
+
+    Theorem e2e chunks : frame_ok (concat chunks) ->
+      exists sch out,
+        read_model pm ord (write_model hive names chunks) = Some (sch, out) /\
+        Permutation out (map expect (filter nonnull (concat chunks))) /\
+        (filter nonnull (concat chunks) <> [] -> sch = if hive then Hive else Drill).
+    Proof.
+      intros Hfr. pose proof (write_model_perm hive names chunks O) as Hperm. fold (write_model hive names chunks) in Hperm.
+      destruct (write_model hive names chunks) as [|f0 fs] eqn:Ef.
+      - exists Empty, []. split; [reflexivity|]. cbn in Hperm. apply Permutation_nil in Hperm. rewrite Hperm.
+        split; [constructor|]. congruence.
+      - rewrite <- Ef in *. eexists _, _. split; [|split].
+        + apply read_generic; [rewrite Ef; discriminate|].
+          apply Forall_forall. intros f Hin. destruct (written_files_ok chunks Hfr f Hin) as [key [i [H1 [H2 H3]]]].
+          exists key, i. split; [exact H1|]. split; [exact H2|]. intros r Hr. apply (H3 r Hr).
+        + apply Permutation_map. exact Hperm.
+        + reflexivity.
+    Qed.
   End Reader.
+
+  (* ================================================================ paths built from legal segments *)
+  Definition legal (s : str) : Prop := clean s /\ ~ In c_eq s.
+
+  Lemma part_name_clean i : clean (part_name i) /\ part_name i <> [].
+  Proof.
+    unfold part_name, show_nat. split; [|discriminate].
+    split; intros H; apply in_app_or in H; destruct H as [H|H];
+      try (cbn in H; intuition discriminate);
+      apply in_app_or in H; destruct H as [H|H];
+      try (cbn in H; intuition discriminate);
+      apply show_Z_chars in H; destruct H as [H|H]; discriminate.
+  Qed.
+
+  Lemma paths_generic (segs : list str) (part : str) :
+    segs <> [] -> Forall (fun s => clean s /\ s <> []) segs -> clean part -> part <> [] ->
+    let dir := join_path segs in
+    let p := join_path [dir; part] in
+    dir = join_with c_slash segs /\ dir <> [] /\ split_on c_slash dir = segs /\
+    split_on c_slash p = segs ++ [part] /\ strip_tail p = dir /\ p <> [].
+  Proof.
+    intros Hn Hs Hp Hpn dir p.
+    assert (Hns : Forall (fun s => ~ In c_slash s) segs).
+    { eapply Forall_impl; [|exact Hs]. cbn. intros s [[H _] _]. exact H. }
+    assert (Hne : Forall (fun s : str => s <> []) segs).
+    { eapply Forall_impl; [|exact Hs]. cbn. tauto. }
+    assert (Ed : dir = join_with c_slash segs) by (apply join_path_clean; exact Hs).
+    assert (Ep : p = join_with c_slash (segs ++ [part])) by (apply join_path_two; assumption).
+    assert (Hns2 : Forall (fun s => ~ In c_slash s) (segs ++ [part])).
+    { apply Forall_app. split; [exact Hns|]. constructor; [apply Hp|constructor]. }
+    assert (Esp : split_on c_slash p = segs ++ [part]).
+    { rewrite Ep. apply split_join; [destruct segs; discriminate|exact Hns2]. }
+    split; [exact Ed|]. split; [rewrite Ed; now apply join_with_nonnil|].
+    split; [rewrite Ed; now apply split_join|]. split; [exact Esp|]. split.
+    - unfold strip_tail. rewrite Esp, removelast_last. now rewrite Ed.
+    - rewrite Ep. apply join_with_nonnil; [destruct segs; discriminate|].
+      apply Forall_app. split; [exact Hne|]. constructor; [exact Hpn|constructor].
+  Qed.
+
+  Lemma dir_segments_combine hive ns key :
+    dir_segments hive ns key = map (fun nv => segment hive (fst nv) (snd nv)) (combine ns key).
+  Proof. revert key. induction ns as [|n ns IH]; intros [|v key]; cbn; try reflexivity. now rewrite IH. Qed.
+
+  (* hive segments name=text *)
+  Definition hseg (nx : str * str) : str := fst nx ++ c_eq :: snd nx.
+  Definition nx_legal (nx : str * str) : Prop := legal (fst nx) /\ legal (snd nx).
+
+  Lemma hseg_clean nx : nx_legal nx -> clean (hseg nx) /\ hseg nx <> [].
+  Proof.
+    intros [[[H1 H2] H3] [[H4 H5] H6]]. unfold hseg. split; [|destruct (fst nx); discriminate].
+    split; intros H; apply in_app_or in H; destruct H as [H|[H|H]]; try tauto; discriminate.
+  Qed.
+
+  Lemma hseg_split nx : nx_legal nx -> split_on c_eq (hseg nx) = [fst nx; snd nx].
+  Proof.
+    intros [[_ H3] [_ H6]]. unfold hseg. rewrite split_on_app by exact H3. now rewrite split_on_nohit by exact H6.
+  Qed.
+
+  Lemma hseg_has_eq nx : has_char c_eq (hseg nx) = true.
+  Proof. apply has_char_In. unfold hseg. apply in_or_app. right. now left. Qed.
+
+  Lemma hsegs_facts (l : list (str * str)) : Forall nx_legal l ->
+    Forall (fun s => clean s /\ s <> []) (map hseg l) /\
+    filter (has_char c_eq) (map hseg l) = map hseg l /\
+    all_some (map (fun p => pair_of (split_on c_eq p)) (map hseg l)) = Some l /\
+    map (split_on c_eq) (map hseg l) = map mk2 l.
+  Proof.
+    induction 1 as [|nx l Hnx Hl [IH1 [IH2 [IH3 IH4]]]]; cbn [map filter all_some]; [repeat split; constructor|].
+    rewrite hseg_has_eq, IH2, (hseg_split nx Hnx), IH4. cbn [pair_of]. rewrite IH3. cbn [option_map].
+    split; [constructor; [now apply hseg_clean|exact IH1]|]. destruct nx. repeat split.
+  Qed.
+
+  Lemma combine_map_r {A B C} (f : B -> C) (l : list A) (l' : list B) :
+    combine l (map f l') = map (fun ab => (fst ab, f (snd ab))) (combine l l').
+  Proof. revert l'. induction l as [|a l IH]; intros [|b l']; cbn; try reflexivity. now rewrite IH. Qed.
+
+  (* ================================================================ hive *)
+  Section Hive.
+    Variable pm : list (str * kind).
+    Variable names : list str.
+    Hypothesis names_nodup : NoDup names.
+    Hypothesis names_nonnil : names <> [].
+    Hypothesis names_legal : Forall legal names.
+    Variable ord : list str -> list str.
+    Hypothesis Hord : forall l x, In x (ord l) <-> In x l.
+
+    (* an admissible key value of the partition column n: the metadata block gives its kind k, the
+       value is of that kind, its text is one legal path segment and converts back *)
+    Definition Pv_hive (n : str) (v : value) : Prop :=
+      exists k, alist_get n pm = Some k /\ wf k v /\ legal (show true v) /\
+                parse_with_meta k (show true v) = Ok (unwrap v).
+    Definition text_hive (n : str) : Prop := alist_get n pm = Some KStr \/ alist_get n pm = Some KCat.
+
+    Lemma hive_nx key : key_ok names Pv_hive key ->
+      Forall nx_legal (combine names (map (show true) key)) /\
+      dir_segments true names key = map hseg (combine names (map (show true) key)).
+    Proof.
+      intros H. split.
+      - assert (G : forall ns ky, Forall2 Pv_hive ns ky -> Forall legal ns -> Forall nx_legal (combine ns (map (show true) ky))).
+        { clear H. intros ns ky H'. induction H' as [|n v ns key' Hnv Hr IH]; intros Hl; cbn; [constructor|].
+          inversion Hl; subst. constructor; [|now apply IH]. destruct Hnv as [k [_ [_ [Hlg _]]]]. split; assumption. }
+        apply G; [exact H|exact names_legal].
+      - rewrite dir_segments_combine, combine_map_r, map_map. reflexivity.
+    Qed.
+
+    Lemma hive_paths key i : key_ok names Pv_hive key ->
+      let segs := map hseg (combine names (map (show true) key)) in
+      dir_path true names key = join_with c_slash segs /\ dir_path true names key <> [] /\
+      split_on c_slash (dir_path true names key) = segs /\
+      split_on c_slash (rel_path true names key (part_name i)) = segs ++ [part_name i] /\
+      strip_tail (rel_path true names key (part_name i)) = dir_path true names key /\
+      rel_path true names key (part_name i) <> [] /\ length segs = length names.
+    Proof.
+      intros Hk segs. destruct (hive_nx key Hk) as [Hnx Eseg].
+      destruct (hsegs_facts _ Hnx) as [Hcl _].
+      assert (Hlen : length segs = length names).
+      { unfold segs. rewrite map_length, combine_length, map_length, <- (F2_length _ _ _ Hk). apply Nat.min_id. }
+      assert (Hn : segs <> []) by (intros E; rewrite E in Hlen; destruct names; [congruence|discriminate]).
+      destruct (part_name_clean i) as [Hpc Hpn].
+      destruct (paths_generic segs (part_name i) Hn Hcl Hpc Hpn) as [H1 [H2 [H3 [H4 [H5 H6]]]]].
+      unfold Partition.rel_path, Partition.dir_path. rewrite Eseg. fold segs. repeat split; assumption.
+    Qed.
+
+    Theorem hive_e2e chunks :
+      frame_ok names Pv_hive (concat chunks) ->
+      exists sch out,
+        read_model pm ord (write_model true names chunks) = Some (sch, out) /\
+        Permutation out (map (expect names unwrap) (filter nonnull (concat chunks))) /\
+        (filter nonnull (concat chunks) <> [] -> sch = Hive).
+    Proof.
+      apply (e2e true pm names names names_nodup Pv_hive unwrap text_hive).
+      - intros n v [k [Ek [_ [_ Hrt]]]]. rewrite Ek. exact Hrt.
+      - intros n v [k [Ek [Hwf _]]] Hs. unfold text_hive. rewrite Ek.
+        destruct k, v; cbn in Hwf, Hs; try tauto; try discriminate; auto.
+      - intros n v Ht [k [Ek [Hwf _]]]. unfold text_hive in Ht. rewrite Ek in Ht.
+        destruct Ht as [[= ->]|[= ->]]; destruct v as [| | | | | |l]; cbn in Hwf; try tauto; try reflexivity.
+        destruct l; try tauto; reflexivity.
+      - intros n v v' [k [Ek [Hwf _]]] [k' [Ek' [Hwf' _]]] H. rewrite Ek in Ek'. injection Ek' as <-.
+        apply (veqb_of_kind_eq F T D feqb teqb deqb f_eq_Z show_float parse_float show_time_iso show_time_str parse_time_np parse_time_fmt parse_time_pd parse_delta feqb_spec teqb_spec k); [now apply wf_of_kind|now apply wf_of_kind|exact H].
+      - intros key Hk. destruct (hive_paths key O Hk) as [_ [_ [H3 _]]].
+        destruct (hive_nx key Hk) as [Hnx _]. destruct (hsegs_facts _ Hnx) as [_ [F2 [F3 _]]].
+        unfold Partition.path_hits, Partition.hive_hits. cbn [fst]. rewrite H3, F2.
+        destruct (map hseg (combine names (map (show true) key))) eqn:E.
+        + exfalso. destruct (hive_paths key O Hk) as [_ [_ [_ [_ [_ [_ H7]]]]]]. rewrite E in H7.
+          destruct names; [congruence|discriminate].
+        + rewrite F3. reflexivity.
+      - intros key Hk. destruct (hive_paths key O Hk) as [_ [H2 [H3 [_ [_ [_ H7]]]]]]. split; [exact H2|]. now rewrite H3.
+      - intros key i Hk. destruct (hive_paths key i Hk) as [_ [_ [_ [_ [H5 [H6 _]]]]]]. now split.
+      - intros key i Hk. destruct (hive_paths key i Hk) as [_ [_ [_ [H4 _]]]].
+        destruct (hive_nx key Hk) as [Hnx _]. destruct (hsegs_facts _ Hnx) as [_ [_ [_ F4]]].
+        unfold Partition.row_partitions. rewrite H4, map_app, F4. eexists. reflexivity.
+      - discriminate.
+      - exact Hord.
+      - intros n a b [k [Ek [Hwf _]]] [k' [Ek' [Hwf' _]]] H. rewrite Ek in Ek'. injection Ek' as <-.
+        now apply (veqb_wf_eq k).
+    Qed.
+
+    Theorem hive_placement chunks : frame_ok names Pv_hive (concat chunks) ->
+      Permutation (concat (map snd (write_model true names chunks))) (filter nonnull (concat chunks)) /\
+      forall f r, In f (write_model true names chunks) -> In r (snd f) ->
+        nonnull r = true /\ exists i, fst f = rel_path true names (key_of r) (part_name i).
+    Proof.
+      apply (placement true names names Pv_hive).
+      intros n a b [k [Ek [Hwf _]]] [k' [Ek' [Hwf' _]]] H. rewrite Ek in Ek'. injection Ek' as <-.
+      now apply (veqb_wf_eq k).
+    Qed.
+  End Hive.
 End E2E.
